@@ -8,7 +8,11 @@ I1  (static effects analysis, engines/effects.py) no mutation sink is reachable 
     Thorough tier: every function of the package that receives a Dataset / Ranking / ScoringScheme parameter.
 I2  non-mutator methods of Dataset, Ranking, ScoringScheme, Element never write `self` (documented mutators and
     constructors are a frozen table).
-I3  `compute_consensus_rankings` never writes the algorithm object.
+I3  which `compute_consensus_rankings` write the algorithm object (state kept across calls) - recorded, not a
+    violation by itself: a correct cache is allowed; what such state may do to later runs is decided by I6.
+I6  (abstract evaluation) a sequence of runs on shared objects - one algorithm object, one Dataset object, one scheme
+    object per scheme, several (dataset, scheme) pairs in a row - returns, at every step, the consensus a run on fresh
+    objects returns.
 I4  randomness is reachable from an algorithm entry point only through KwikSortRandom._get_pivot.
 I5  (snapshots by abstract evaluation) running every algorithm configuration end to end, reading the score and the
     description, computing both partitions, leaves the evaluated dataset and scheme instances - rankings, buckets,
@@ -47,7 +51,8 @@ def run(ctx) -> Result:
     eff = Effects(proj, cg)
     res.rule("I1", "no mutation sink reachable on state aliasing the inputs of the entry points (effects analysis)", 20)
     res.rule("I2", "non-mutator methods of the data classes never write self", 40)
-    res.rule("I3", "compute_consensus_rankings never writes the algorithm object", 9)
+    res.rule("I3", "which compute_consensus_rankings write the algorithm object (recorded; decided by I6)", 9)
+    res.rule("I6", "a sequence of runs on shared algorithm / dataset / scheme objects = runs on fresh objects, step by step", 10)
     res.rule("I4", "random.* reachable from algorithm entry points only through KwikSortRandom._get_pivot", 1)
     res.rule("I5", "snapshots of dataset / scheme instances before and after end-to-end evaluation; repeatability", 10)
     res.extra["functions_summarised"] = len(eff.summ)
@@ -120,13 +125,19 @@ def run(ctx) -> Result:
                                   f"{'.' + (bad or others)[0][1] if (bad or others)[0][1] else ''}: "
                                   f"{eff.witness(m, (bad or others)[0])}") if (bad or others) else "")
     # ------------------------------------------------------------------ I3
+    stateful = []
     for f in entries:
         if f.name != "compute_consensus_rankings":
             continue
         s = eff.summ[f.qualname]
-        bad = sorted(r for r in s.mut if r[0] == "self")
-        res.check(not bad, "I3", f"{f.short}:self", f.loc(), ok_detail="the algorithm object is not written",
-                  bad_detail=f"may modify the algorithm's `{bad[0][1] or 'state'}`: {eff.witness(f, bad[0])}" if bad else "")
+        wr = sorted(r for r in s.mut if r[0] == "self")
+        if wr:
+            stateful.append(f.short)
+        res.ok("I3", f"{f.short}:self", f.loc(),
+               "the algorithm object is not written" if not wr else
+               f"keeps state across calls (`{wr[0][1] or 'state'}`: {eff.witness(f, wr[0])}) - later runs are compared with "
+               f"runs on fresh objects by I6", nontrivial=not wr)
+    res.extra["algorithms_keeping_state_across_calls"] = stateful
     # ------------------------------------------------------------------ I4
     roots = [f for f in entries if f.name == "compute_consensus_rankings"]
     reach = cg.reachable(roots)
@@ -145,6 +156,7 @@ def run(ctx) -> Result:
               "no random call found at all (the pivot is expected to be random)")
     # ------------------------------------------------------------------ I5
     _check_snapshots(res, proj, ctx.thorough)
+    _check_sequences(res, proj, ctx.thorough)
     res.assumptions.append("numba / numpy functions do not write their inputs except the in-place operations tabulated "
                            "in engines/effects.py")
     return res
@@ -195,8 +207,6 @@ def _snap_worker(job):
                 out.append((clabel, f"scheme {slabel}: the {what} differs after the run: before {before[0][0] if what == 'dataset' else before[1]} "
                                     f"after {after[0][0] if what == 'dataset' else after[1]}"))
                 before = after
-            if repr(sorted((k, repr(v)) for k, v in alg.attrs.items())) != alg_before:
-                out.append((clabel, f"scheme {slabel}: the algorithm object was modified by the run"))
             if st2 == "ok":
                 r1 = [w.raw_ranking(r) for r in c1.attrs["_consensus_rankings"]]
                 r2 = [w.raw_ranking(r) for r in c2.attrs["_consensus_rankings"]]
@@ -221,6 +231,65 @@ def _snap_worker(job):
     return label, out
 
 
+# the first pairs keep one 5-element (resp. 4 + 1 + 1) strongly connected component under both schemes, with different optima
+SEQUENCE = [("five-cycle-ties", "unifying-p0.5"), ("five-cycle-ties", "generic"), ("six-mixed", "generic"),
+            ("six-mixed", "unifying-p0.5"), ("cycle3", "unifying"), ("later-id-first", "unifying"),
+            ("five-cycle-ties", "pseudodistance"), ("five-cycle-ties", "unifying-p0.5")]
+
+
+def _seq_worker(job):
+    from . import oracle
+    overlay, idx, seq = job
+    proj = Project(overlay=overlay)
+    ws = E2EWorld(proj, "first")
+    clabel, alg, kind = configurations(ws)[idx]
+    dss, schs = {}, {}
+    out = []
+
+    def outcome(w, a, ds, sch):
+        st, c = w.try_compute(a, ds, sch, "Exact" in clabel)
+        if st != "ok":
+            return ("raise", c)
+        try:
+            sc = w.call(c, "kemeny_score")
+        except AbsRaise as exc:
+            sc = f"raise {exc.exc_name}"
+        return ("ok", [w.raw_ranking(r) for r in c.attrs["_consensus_rankings"]], sc)
+    for k, (dname, sname) in enumerate(seq):
+        raws, pen = oracle.DATASETS[dname], oracle.SCHEMES[sname]
+        if dname not in dss:
+            dss[dname] = ws.dataset(raws)
+        if sname not in schs:
+            schs[sname] = ws.scheme(pen)
+        got = outcome(ws, alg, dss[dname], schs[sname])
+        wf = E2EWorld(proj, "first")
+        want = outcome(wf, configurations(wf)[idx][1], wf.dataset(raws), wf.scheme(pen))
+        if got != want:
+            before = "; ".join(f"{d}/{s_}" for d, s_ in seq[:k]) or "nothing"
+            out.append((clabel, f"run #{k + 1} on shared objects (before it: {before}) on dataset {dname} {raws}, scheme {sname} "
+                                f"gives {got[1:]}, the same run on fresh objects gives {want[1:]}"))
+        else:
+            out.append((clabel, None))
+    return out
+
+
+def _check_sequences(res: Result, proj: Project, thorough: bool):
+    w0 = E2EWorld(proj, "first")
+    n = len(configurations(w0))
+    seq = SEQUENCE if thorough else SEQUENCE[:5]
+    agg: Dict[str, List[str]] = {}
+    with ProcessPoolExecutor(max_workers=min(n, os.cpu_count() or 1)) as ex:
+        for out in ex.map(_seq_worker, [(proj.overlay, i, seq) for i in range(n)]):
+            for clabel, problem in out:
+                agg.setdefault(clabel, [])
+                if problem is not None:
+                    agg[clabel].append(problem)
+    for clabel, probs in sorted(agg.items()):
+        res.check(not probs, "I6", f"{clabel}:shared-objects-sequence", "corankco/algorithms",
+                  ok_detail=f"{len(seq)} consecutive runs on shared objects each equal the run on fresh objects",
+                  bad_detail=probs[0] if probs else "")
+
+
 def _check_snapshots(res: Result, proj: Project, thorough: bool):
     jobs = [(proj.overlay, label, raws, thorough) for label, raws in SNAP_DATASETS]
     agg: Dict[str, List[str]] = {}
@@ -232,5 +301,5 @@ def _check_snapshots(res: Result, proj: Project, thorough: bool):
                     agg[clabel].append(f"dataset {label}: {problem}")
     for clabel, probs in sorted(agg.items()):
         res.check(not probs, "I5", f"{clabel}:inputs-unchanged-and-repeatable", "corankco/algorithms",
-                  ok_detail="dataset, scheme and algorithm object identical before and after; same consensus twice",
+                  ok_detail="dataset and scheme identical before and after; same consensus twice",
                   bad_detail=probs[0] if probs else "")
